@@ -97,7 +97,16 @@ def run_case(mon, base, case, sh):
                 f.write('[buildpack]\nuri = "."\n' + "".join('\n[[dependencies]]\nuri = "/stale/dependency/%d"\n' % i for i in range(30)))
             with open(os.path.join(dest, "buildpack.toml"), "w") as f:
                 f.write("# stale\n" * 200)
-        rep = mon.call({"op": "composite", "dir": src, "dest": dest, "map": [[k, v] for k, v in case["map"].items()]})
+        # the source directory as the caller spells it: plainly, or with '.' / '..' segments (a sibling directory and back; ending in "..")
+        spell = case["idx"] % 4
+        given = src
+        if spell == 1:
+            os.makedirs(os.path.join(root, "sibling"), exist_ok=True)
+            given = os.path.join(root, "sibling", "..", ".", case["loc"])
+        elif spell == 2:
+            os.makedirs(os.path.join(src, "inner"), exist_ok=True)
+            given = os.path.join(src, "inner", "..")
+        rep = mon.call({"op": "composite", "dir": given, "dest": dest, "map": [[k, v] for k, v in case["map"].items()]})
         sh.evaluations += 1
         out_path = os.path.join(dest, "package.toml")
         if case["missing"] is not None:
